@@ -1300,6 +1300,20 @@ class Sim:
         import random as _random_mod
         import tempfile as _tempfile_mod
 
+        # The process environment is part of the simulated machine: a fixed base plus whatever the
+        # plan sets (SOURCE_DATE_EPOCH, TMPDIR, HOME, LANG, ...).  Restored afterwards.
+        saved_environ = dict(os.environ)
+        base_env = {"PATH": saved_environ.get("PATH", "/usr/bin:/bin"), "HOME": "/home/sim", "LANG": "C.UTF-8", "USER": "sim", "LOGNAME": "sim"}
+        for k in ("PYTHONHASHSEED", "PYTHONDONTWRITEBYTECODE"):
+            if k in saved_environ:
+                base_env[k] = saved_environ[k]
+        for k, v in (env.get("environ") or {}).items():
+            if v is None:
+                base_env.pop(k, None)
+            else:
+                base_env[k] = str(v)
+        os.environ.clear()
+        os.environ.update(base_env)
         _tempfile_mod.tempdir = None  # tempfile.gettempdir() caches its probing
         _random_mod.seed(0x5EED)  # the global PRNG is seeded from the OS at start-up
         try:
@@ -1432,6 +1446,8 @@ class Sim:
             sys.stdout = saved["stdout"]
             sys.argv = saved["argv"]
             os.chdir(saved["cwd"])
+            os.environ.clear()
+            os.environ.update(saved_environ)
         # Files the tool still had open for writing when it ended: a process that exits (even
         # through an uncaught exception or SIGINT) closes and flushes them.  A killed process does
         # not: the overlay goes back to what was on "disk" at the instant of the kill.
